@@ -361,94 +361,119 @@ def check_idx_id_mix(prog: Program, res: Result, fi) -> None:
 
 def check_ring_choice(prog: Program, res: Result, fi) -> None:
     from ..convtables import Fold, UNK
-    res.rule("R-RING-CHOICE", "the ring-cis inference looks at the smallest "
-             "ring that contains the double bond (evaluated on a bond shared "
-             "by a 6- and an 8-membered ring: the ring list is ordered by the "
-             "code's own sort key and the entry it then reads must be the "
-             "6-ring): the small ring forces cis whatever larger ring the "
-             "bond also lies in")
+    res.rule("R-RING-CHOICE", "the ring-cis inference looks at a ring that "
+             "decides: evaluated on a bond shared by a 6- and an 8-membered "
+             "ring (the ring records are ordered / selected by the code's own "
+             "key; the record it then reads must be the 6-ring) and on a bond "
+             "shared by an aromatic 6-ring and a non-aromatic 8-ring (the "
+             "record read must be the aromatic one): a small or aromatic ring "
+             "forces cis whatever larger ring the bond also lies in")
     inst = "smg_from_rdmol: ring examined for the cis inference"
-    name = None
+    # -- the ring records: a tuple / a call with an aromatic flag and a size
+    rec = None
     for n in ast.walk(fi.node):
-        if isinstance(n, ast.Assign) and len(n.targets) == 1 and isinstance(
-                n.targets[0], ast.Name) and isinstance(
-                n.value, ast.ListComp) and "GetSymmSSSR" in norm(
-                n.value.generators[0].iter) and isinstance(
-                n.value.elt, ast.Tuple):
-            name = n.targets[0].id
-            elt = n.value.elt
-    if name is None:
+        if not isinstance(n, (ast.ListComp, ast.GeneratorExp)):
+            continue
+        if "GetSymmSSSR" not in norm(n, 2000):
+            continue
+        e = n.elt
+        parts = None
+        if isinstance(e, ast.Tuple):
+            parts = [(i, x) for i, x in enumerate(e.elts)]
+        elif isinstance(e, ast.Call) and e.keywords and not e.args:
+            parts = [(k.arg, k.value) for k in e.keywords]
+        if parts is None:
+            continue
+        size = [k for k, x in parts if norm(x).startswith("len(")]
+        arom = [k for k, x in parts if "GetIsAromatic" in norm(x, 600)]
+        if len(size) == 1 and len(arom) == 1:
+            rec = (parts, size[0], arom[0], isinstance(e, ast.Tuple))
+    if rec is None:
         res.unrecognised("R-RING-CHOICE", inst, fi.loc(),
-                         "list of (aromatic, size, atoms) ring records over "
+                         "ring records (aromatic flag, size, atoms) over "
                          "GetSymmSSSR not found")
         return
-    # which tuple position holds the size / the aromatic flag
-    pos_size = [i for i, x in enumerate(elt.elts)
-                if norm(x).startswith("len(")]
-    if len(pos_size) != 1:
-        res.unrecognised("R-RING-CHOICE", inst, fi.loc(elt),
-                         "ring record has no single len(ring) component")
-        return
-    def record(size):
-        r = []
-        for i, x in enumerate(elt.elts):
-            if i == pos_size[0]:
-                r.append(size)
-            elif norm(x).startswith(("list(", "tuple(", "set(")) or \
-                    isinstance(x, ast.Name):
-                r.append(f"ring{size}")
-            else:
-                r.append(False)        # not aromatic
-        return tuple(r)
-    sample = [record(8), record(6)]
-    order = None
+    parts, k_size, k_arom, positional = rec
+
+    def record(arom, size):
+        vals = {}
+        for k, _x in parts:
+            vals[k] = size if k == k_size else (
+                arom if k == k_arom else f"ring{size}")
+        return vals
+
+    def key_of(lam, r):
+        if lam is None:
+            if positional:
+                return tuple(r[k] for k, _ in parts)
+            return UNK
+        if not isinstance(lam, ast.Lambda) or len(lam.args.args) != 1:
+            return UNK
+        p = lam.args.args[0].arg
+        env = {}
+        if positional:
+            env[p] = tuple(r[k] for k, _ in parts)
+        else:
+            for k, v in r.items():
+                env[f"{p}.{k}"] = v
+        return Fold(env).ev(lam.body)
+
+    # -- how one record is selected
+    selectors = []
     for n in ast.walk(fi.node):
         if isinstance(n, ast.Call) and isinstance(n.func, ast.Attribute) \
-                and n.func.attr == "sort" and norm(n.func.value) == name:
+                and n.func.attr == "sort":
             kw = {k.arg: k.value for k in n.keywords}
-            key = kw.get("key")
-            rev = kw.get("reverse")
-            revv = False
-            if rev is not None:
-                revv = Fold({}).ev(rev)
-                if revv is UNK:
-                    order = None
-                    break
-            def keyf(item):
-                if key is None:
-                    return item
-                if not isinstance(key, ast.Lambda) or len(
-                        key.args.args) != 1:
-                    return UNK
-                return Fold({key.args.args[0].arg: item}).ev(key.body)
-            ks = [keyf(x) for x in sample]
-            if any(k is UNK for k in ks):
-                order = None
-                break
-            try:
-                order = [x for _k, x in sorted(
-                    zip(ks, sample), key=lambda t: t[0], reverse=bool(revv))]
-            except TypeError:
-                order = None
-    if order is None:
+            nm = norm(n.func.value)
+            idx = {x.slice.value for x in ast.walk(fi.node)
+                   if isinstance(x, ast.Subscript) and norm(x.value) == nm
+                   and isinstance(x.slice, ast.Constant)
+                   and isinstance(x.slice.value, int)}
+            if len(idx) == 1:
+                selectors.append(("sort", kw.get("key"), kw.get("reverse"),
+                                  idx.pop()))
+        elif isinstance(n, ast.Call) and isinstance(n.func, ast.Name) and \
+                n.func.id in ("min", "max") and n.args and \
+                "r" and any(isinstance(x, (ast.Name, ast.Attribute))
+                            for x in ast.walk(n.args[0])):
+            kw = {k.arg: k.value for k in n.keywords}
+            if "key" in kw and ("size" in norm(kw["key"]) or "[" in norm(
+                    kw["key"])):
+                selectors.append((n.func.id, kw.get("key"), None, None))
+    if len(selectors) != 1:
         res.unrecognised("R-RING-CHOICE", inst, fi.loc(),
-                         f"`{name}.sort(key=lambda ..)` not found or its key "
-                         "not evaluable")
+                         f"{len(selectors)} ways of selecting the ring "
+                         "(expected one sort + index or one min / max with a "
+                         "key)")
         return
-    idx = set()
-    for n in ast.walk(fi.node):
-        if isinstance(n, ast.Subscript) and norm(n.value) == name and \
-                isinstance(n.slice, ast.Constant) and isinstance(
-                n.slice.value, int):
-            idx.add(n.slice.value)
-    if len(idx) != 1:
+    how, key, rev, index = selectors[0]
+
+    def choose(sample):
+        ks = [key_of(key, r) for r in sample]
+        if any(k is UNK for k in ks):
+            return None
+        try:
+            if how == "sort":
+                revv = False
+                if rev is not None:
+                    revv = Fold({}).ev(rev)
+                    if revv is UNK:
+                        return None
+                order = [r for _k, r in sorted(zip(ks, sample),
+                                               key=lambda t: t[0],
+                                               reverse=bool(revv))]
+                return order[index]
+            pick = min if how == "min" else max
+            return pick(zip(ks, sample), key=lambda t: t[0])[1]
+        except (TypeError, IndexError):
+            return None
+    c1 = choose([record(False, 8), record(False, 6)])
+    c2 = choose([record(False, 8), record(True, 6)])
+    if c1 is None or c2 is None:
         res.unrecognised("R-RING-CHOICE", inst, fi.loc(),
-                         f"the ring list is read at positions {sorted(idx)}")
+                         "the selection key could not be evaluated")
         return
-    chosen = order[idx.pop()]
-    if chosen[pos_size[0]] == 6:
-        res.ok("R-RING-CHOICE", inst, fi.loc())
-    else:
+    if c1[k_size] != 6:
         res.bad("R-RING-CHOICE", "smg_from_rdmol: cis inference reads the "
                 "largest ring", fi.loc(), f"{inst}: for a double bond shared "
                 "by a 6-ring and an 8-ring the code examines the 8-ring; it "
@@ -457,6 +482,16 @@ def check_ring_choice(prog: Program, res: Result, fi) -> None:
                 "spelling dependent E/Z is stored (C1CCCC2=C1CCCCCC2 and "
                 "C12=C(CCCC1)CCCCCC2 import to unequal graphs)",
                 instance=inst)
+    elif c2[k_arom] is not True:
+        res.bad("R-RING-CHOICE", "smg_from_rdmol: cis inference prefers a "
+                "large ring over an aromatic one", fi.loc(),
+                f"{inst}: for a bond shared by an aromatic 6-ring and a "
+                "non-aromatic 8-ring the code examines the 8-ring: it is "
+                "neither aromatic nor smaller than _min_trans_ring_size, so "
+                "the aromatic bond is not treated as cis and an arbitrary, "
+                "spelling dependent E/Z is stored", instance=inst)
+    else:
+        res.ok("R-RING-CHOICE", inst, fi.loc())
 
 
 def check_falsy_and_state(prog: Program, res: Result, fi) -> None:
